@@ -11,12 +11,13 @@ G  GenCLex: every text over the lexically significant alphabet up to MaxLen char
 """
 import json
 import os
+import re
 import shutil
 import subprocess
 import sys
 import tempfile
 
-from .. import core, runner
+from .. import clexgraph, core, runner
 
 CFG = """SPECIFICATION Spec
 CONSTANTS
@@ -163,12 +164,41 @@ def cli_cov_sample(ctx, cases, n):
         shutil.rmtree(d, ignore_errors=True)
 
 
+def oracle_scan(ctx, texts, name):
+    """CScan verdicts for harness-supplied texts (EvalCLex.tla); returns cases for the ok ones."""
+    os.makedirs(core.OUT, exist_ok=True)
+    tf = os.path.join(core.OUT, f"texts_{name}_{os.getpid()}.json")
+    with open(tf, "w") as f:
+        json.dump(texts, f)
+    try:
+        cfg = "SPECIFICATION Spec\nCONSTANTS\n  Shard = @SHARD@\n  NShards = @NSHARDS@\nCHECK_DEADLOCK FALSE\n"
+        os.environ["TEXTS_FILE"] = tf
+        res = runner.sharded_tlc(ctx, "EvalCLex", cfg, 16, f"EvalCLex_{name}", timeout=3000)
+    finally:
+        os.environ.pop("TEXTS_FILE", None)
+        os.unlink(tf)
+    if len(res) != len(texts):
+        raise core.MachineryError(f"EvalCLex judged {len(res)} of {len(texts)} texts")
+    out = []
+    for r in res:
+        if r["ok"]:
+            out.append({"text": texts[r["idx"] - 1], "counted": r["counted"], "logical": r["logical"]})
+    return out
+
+
 def run(ctx):
     q = ctx.quick
-    r = core.tlc("MC_CLex", "MC_CLex.cfg", workers=8, timeout=600, tag="clex")
+    dot = os.path.join(core.OUT, f"clex_{os.getpid()}")
+    r = core.tlc("MC_CLex", "MC_CLex.cfg", workers=1, timeout=600, tag="clex",
+                 extra=["-dump", "dot,actionlabels", dot])
     ctx.add_tlc("MC_CLex (cleaner model x reference scanner, any text length, fixpoint)", r)
     if r.violation:
         ctx.model_violation("MC_CLex", r)
+    ttexts, ntr = clexgraph.transition_texts(dot + ".dot")
+    os.unlink(dot + ".dot")
+    ctx.cov["product_graph_transitions"] = ntr
+    tcases = oracle_scan(ctx, ttexts, "trans")
+    ctx.cov["transition_texts_wellformed"] = len(tcases)
     maxlen = 5 if q else 6
     p = os.path.join(core.OUT, f"GenCLex_M_{os.getpid()}.cfg")
     os.makedirs(core.OUT, exist_ok=True)
@@ -186,7 +216,7 @@ def run(ctx):
                              "GenCLex_toks", timeout=900, simulate=f"num={400 if q else 6000}", depth=16, seed=ctx.seed + 9)
     seen = set()
     allc = []
-    for c in cases + sim:
+    for c in cases + sim + tcases:
         if c["text"] not in seen:
             seen.add(c["text"])
             allc.append(c)
